@@ -143,6 +143,36 @@ theorem tag_denote (n : Nat) (x : Item) (h : n < 18446744073709551616) :
   simp only [encPref, prefTree, encW]
   rw [tag_pref _ h]; rfl
 
+theorem encWs_eq_flatten (ws : List WItem) : encWs ws = (ws.map encW).flatten := by
+  induction ws with
+  | nil => rfl
+  | cons w ws ih => simp [encWs, ih]
+
+/-- `ArrayIter` / `MapIter`: whatever the size hint, the output is exactly one well-formed
+    array / map of the items written — definite with the shortest head when the hint is exact,
+    indefinite with a break otherwise. -/
+theorem arrayIter_wellformed (exact : Bool) (ws : List WItem) (hv : validAll ws = true)
+    (hl : ws.length < 18446744073709551616) :
+    ∃ w, w.Valid ∧ Enc.arrayIter exact (ws.map encW) = encW w ∧ value w = .array (values ws) := by
+  cases exact
+  · refine ⟨.arrayI ws, by simpa [WItem.Valid, WItem.valid] using hv, ?_, by simp [value]⟩
+    simp [Enc.arrayIter, Enc.beginArray, Enc.end, encW, encWs_eq_flatten]
+  · refine ⟨.array (prefWidth ws.length) ws, ?_, ?_, by simp [value]⟩
+    · simp [WItem.Valid, WItem.valid, hv, prefWidth_fits _ hl]
+    · simp only [Enc.arrayIter, List.length_map, if_true, encW, encWs_eq_flatten]
+      rw [array_pref _ hl]; rfl
+
+theorem mapIter_wellformed (exact : Bool) (kvs : List WItem) (hv : validAll kvs = true)
+    (he : kvs.length % 2 = 0) (hl : kvs.length / 2 < 18446744073709551616) :
+    ∃ w, w.Valid ∧ Enc.mapIter exact (kvs.map encW) = encW w ∧ value w = .map (values kvs) := by
+  cases exact
+  · refine ⟨.mapI kvs, by simp [WItem.Valid, WItem.valid, hv, he], ?_, by simp [value]⟩
+    simp [Enc.mapIter, Enc.beginMap, Enc.end, encW, encWs_eq_flatten]
+  · refine ⟨.map (prefWidth (kvs.length / 2)) kvs, ?_, ?_, by simp [value]⟩
+    · simp [WItem.Valid, WItem.valid, hv, he, prefWidth_fits _ hl]
+    · simp only [Enc.mapIter, List.length_map, if_true, encW, encWs_eq_flatten]
+      rw [map_pref _ hl]; rfl
+
 /-- determinism: the encoder is a function of its arguments (stated for the record; every
     model method is a pure function, so two runs on equal arguments give equal bytes). -/
 theorem deterministic (f : α → Bytes) (a b : α) (h : a = b) : f a = f b := by rw [h]
